@@ -281,6 +281,8 @@ pub struct H2Conn<S: Read + Write> {
     rbuf: Vec<u8>,
     rpos: usize,
     pub eof: bool,
+    /// the read error that ended the connection (when it was not an orderly end)
+    pub last_io_error: Option<String>,
     enc: loona_hpack::Encoder<'static>,
     dec: loona_hpack::Decoder<'static>,
     /// what this peer advertised to sozu (limits sozu must respect)
@@ -327,6 +329,7 @@ impl<S: Read + Write> H2Conn<S> {
             rbuf: vec![],
             rpos: 0,
             eof: false,
+            last_io_error: None,
             enc: loona_hpack::Encoder::new(),
             dec: loona_hpack::Decoder::new(),
             mine_acked: Settings::default(),
@@ -470,10 +473,12 @@ impl<S: Read + Write> H2Conn<S> {
                     }
                     std::io::ErrorKind::UnexpectedEof => {
                         self.eof = true;
+                        self.last_io_error = Some(format!("{e}"));
                         return H2Event::Eof;
                     }
                     _ => {
                         self.eof = true;
+                        self.last_io_error = Some(format!("{:?}: {e}", e.kind()));
                         return H2Event::Reset;
                     }
                 },
